@@ -165,6 +165,10 @@ class World:
             return bool(arr) if o['t']['b'] else float(arr)
         if o['k'] == 'list':
             return arr.tolist()
+        if o['k'] == 'sp':          # a fresh sparse object (vector / logical vector / array, any length incl. 1)
+            if arr.ndim == 2:
+                return sp.SparseArray(arr)
+            return sp.SparseLogicalVector(arr) if o['t']['b'] else sp.SparseVector(arr)
         return arr
 
     def np_operand(self, o, pre):
@@ -192,6 +196,12 @@ class World:
             return (slice(None), ix['j'] - 1)
         if k == 'rowslice':
             return (ix['i'] - 1, slice(ix['lo'], ix['hi']))
+        if k == 'rows':
+            return [i - 1 for i in ix['idx']]
+        if k == 'rowscol':
+            return ([i - 1 for i in ix['idx']], ix['j'] - 1)
+        if k == 'cells':
+            return ([i - 1 for i in ix['idx']], [j - 1 for j in ix['jdx']])
         raise KeyError(k)
 
     # ---- apply ------------------------------------------------------------------
@@ -204,8 +214,22 @@ class World:
             with warnings.catch_warnings():
                 warnings.simplefilter('ignore')
                 res = self._apply(op, a)
+                restensor = None if res is None else tensor(dense(res))
+                resrep = rep_of(res) if res is not None else []
+                if op in ('bin', 'rbin', 'un', 'red') and isinstance(res, (sp.SparseVector, sp.SparseLogicalVector, sp.SparseArray)):
+                    # in-place operations change only their target: scribble over the result; the operands and
+                    # all other objects (projected below) must not notice
+                    try:
+                        if res.dtype is bool:
+                            res ^= True
+                        else:
+                            res += 1.
+                            res *= 3.
+                    except Exception:
+                        pass
         except Exception as e:
             exc = type(e).__name__
+            restensor, resrep = None, []
         # NumPy second opinion on the dense images (guards against transcription errors in the spec)
         npres, npexc = None, NONE
         try:
@@ -218,8 +242,8 @@ class World:
         names = sorted(self.objs)
         obs = dict(exc=exc, names=names,
                    rep={n: rep_of(self.objs[n]) for n in names},
-                   res=REJECT if res is None else tensor(dense(res)),
-                   resrep=rep_of(res) if res is not None else [],
+                   res=REJECT if restensor is None else restensor,
+                   resrep=resrep,
                    np=REJECT if npres is None else tensor(npres), npexc=npexc)
         return obs
 
@@ -316,7 +340,7 @@ class World:
 # ---- candidate generation -------------------------------------------------------------
 
 VALUES = [Fraction(0), Fraction(1), Fraction(-1), Fraction(2), Fraction(1, 2)]
-BIGVALUES = VALUES + [Fraction(-2), Fraction(3), Fraction(1, 4), Fraction(-1, 2), Fraction(3, 2), Fraction(1 << 10), Fraction(1, 1 << 10)]
+BIGVALUES = VALUES + [Fraction(-2), Fraction(3), Fraction(1, 4), Fraction(-1, 2), Fraction(3, 2), Fraction(1 << 6), Fraction(1, 1 << 6)]
 
 
 def fr(x):
@@ -346,7 +370,7 @@ def random_operand(universe, rng, values, want_bool=False, allow_2d=True):
     def el():
         return rng.random() < 0.5 if want_bool else fr(rng.choice(values))
     shape = rng.choice(['0', '1n', '11', '1n'] + (['2mn', '21n', '2m1x'] if allow_2d else []))
-    kind = rng.choice(['list', 'nd'])
+    kind = rng.choice(['list', 'nd', 'sp'])
     if shape == '0':
         return lit(rng.choice(['py', 'py', 'nd']), T(0, want_bool, el()))
     if shape == '1n':
@@ -364,7 +388,15 @@ def random_operand(universe, rng, values, want_bool=False, allow_2d=True):
 def random_index(universe, kind, rng):
     n, m = universe['ncols'], universe['nrows']
     if kind == 'arr':
-        k = rng.choice(['row', 'cell', 'col', 'all', 'rowslice'])
+        k = rng.choice(['row', 'cell', 'col', 'all', 'rowslice', 'rows', 'rowscol', 'cells'])
+        if k in ('rows', 'rowscol', 'cells'):
+            ln = rng.randint(1, m)
+            idx = rng.sample(range(1, m + 1), ln) if rng.random() < 0.8 else [rng.randint(1, m) for _ in range(ln)]
+            if k == 'rows':
+                return dict(k=k, idx=idx)
+            if k == 'rowscol':
+                return dict(k=k, idx=idx, j=rng.randint(1, n))
+            return dict(k=k, idx=idx, jdx=[rng.randint(1, n) for _ in idx])
         if k == 'row':
             return dict(k=k, i=rng.randint(1, m))
         if k == 'cell':
@@ -409,8 +441,35 @@ def random_op(universe, rng, values, mutating=None):
             return op, dict(tgt=rng.choice(logs), f=rng.choice(LOGIC), o=random_operand(universe, rng, values, want_bool=True, allow_2d=False))
         if op == 'setitem':
             tgt = rng.choice(names)
-            return op, dict(tgt=tgt, ix=random_index(universe, kinds[tgt], rng),
-                            o=random_operand(universe, rng, values, want_bool=(kinds[tgt] == 'lvec') or rng.random() < 0.1))
+            ix = random_index(universe, kinds[tgt], rng)
+            wb = (kinds[tgt] == 'lvec') or rng.random() < 0.1
+            if rng.random() < 0.6:
+                # a value whose shape matches the selection (the interesting, accepted case)
+                n, m = universe['ncols'], universe['nrows']
+                k = ix['k']
+                cnt = {'int': 0, 'cell': 0, 'all': n, 'row': n, 'col': m}.get(k)
+                if k in ('slice', 'rowslice'):
+                    cnt = ix['hi'] - ix['lo']
+                elif k in ('fancy', 'rowscol', 'cells'):
+                    cnt = len(ix['idx'])
+                elif k == 'mask':
+                    cnt = sum(ix['m'])
+                elif k == 'rows':
+                    cnt = n
+
+                def el():
+                    return rng.random() < 0.5 if wb else fr(rng.choice(values + [Fraction(0)] * 3))
+                if cnt and rng.random() < 0.85:
+                    if kinds[tgt] == 'arr' and k == 'all':
+                        o = lit(rng.choice(['list', 'nd', 'sp']), T(2, wb, [[el() for _ in range(n)] for _ in range(m)]))
+                    elif k == 'rows' and rng.random() < 0.5:
+                        o = lit(rng.choice(['list', 'nd']), T(2, wb, [[el() for _ in range(n)] for _ in ix['idx']]))
+                    else:
+                        o = lit(rng.choice(['list', 'nd', 'sp']), T(1, wb, [el() for _ in range(cnt)]))
+                else:
+                    o = lit(rng.choice(['py', 'nd']), T(0, wb, el()))
+                return op, dict(tgt=tgt, ix=ix, o=o)
+            return op, dict(tgt=tgt, ix=ix, o=random_operand(universe, rng, values, want_bool=wb))
         if op in ('clear', 'setflags'):
             return op, dict(tgt=rng.choice(names))
         if op == 'copy_like':
